@@ -177,8 +177,9 @@ def menu(M, seen):
         # in-place cell edit through the column (columns are indexed like NumPy arrays)
         for nm in dict.fromkeys([names[0], names[-1]]):
             c = M.get(nm)
-            if n >= 2 and not _same(c[0], c[-1]):
-                add({"op": "poke", "col": nm})
+            src = next((j for j in (n - 1, 1) if n >= 2 and not _same(c[0], c[j])), None)
+            if src is not None:
+                add({"op": "poke", "col": nm, "src": src})
     add({"op": "setattr", "name": "attr1", "form": "vector"})
     for nm in names:
         add({"op": "delitem", "name": nm})
@@ -377,7 +378,7 @@ def apply_real(d, M, op):
         return d, []
     if o == "poke":
         col = dict.__getitem__(d, op["col"])
-        col[0] = col[len(col) - 1]
+        col[0] = col[op["src"]]
         return d, []
     if o == "setattr":
         val, _ = value_of(op["form"], n if M.ncol else 2, M)
@@ -457,7 +458,7 @@ def apply_model(M, op):
     if o == "poke":
         M2 = M.copy()
         c = M2.get(op["col"])
-        c[0] = c[-1]
+        c[0] = c[op["src"]]
         return M2, flags
     if o == "modify":
         if op["form"] == "callable":
@@ -659,7 +660,7 @@ def step(d, M, seen, op, rec, clauses, case_of):
                 M2 = cand
                 break
         if M2 is None:
-            if "C01" in clauses or "C09" in clauses:
+            if "C01" in clauses or "C09" in clauses or "C03" in clauses:
                 rec.violation(o, "model", case_of(op), f"sorted frame {V.frame_rows(out)} is none of the allowed orders {[c.rows() for c in m2]}")
             return None, None, None, dirty
     else:
